@@ -186,6 +186,8 @@ pub enum Action {
     Broadcast { ty: u8, id: u32 },
     Subscribe { topic: u8 },
     Publish { topic: u8, id: u32 },
+    /// register `n` one-shot timers (delayed_send, 1 tick, timer ids 100, 101, ...) in one go
+    ManyOneShots { n: u8 },
     /// publish `id` and `id + 1` on topic 1, one after the other, from the same handler
     PublishTwice { id: u32 },
     UpWeakSender,
@@ -769,6 +771,12 @@ impl<const K: u8> Probe<K> {
                 let w = ctx.weak_sender::<Note>();
                 let ok = if force { w.try_force_send(Note(id)).is_ok() } else { w.try_send(Note(id)).await.is_ok() };
                 ctxlog(CtxOp::SelfSend(id), ok)
+            }
+            Action::ManyOneShots { n } => {
+                for k in 0..n {
+                    let timer = 100 + k;
+                    ctx.delayed_send(move || Tick { timer, reg_inc }, ms(1));
+                }
             }
             Action::ShareCtxHandles => {
                 // (the weak address is typed by the actor: kept for Probe<0> only)
